@@ -39,11 +39,11 @@ fn check_inner(sub: &str, g: &G, toks: &[char], alpha: &[char], l: &mut Local) -
     let s: &str = &si.s;
     let p = build::<&str, RichS>(g, false);
     // raw ParseResult contract, parse and check
-    let raw = std::panic::catch_unwind(std::panic::AssertUnwindSafe(|| {
+    let raw = quietly(|| {
         let a = result_contract(p.parse(s));
         let b = result_contract(Parser::check(&p, s));
         (a, b)
-    }));
+    });
     l.evals += 2;
     let (ra, rb) = match raw {
         Ok(x) => x,
@@ -68,11 +68,11 @@ fn check_inner(sub: &str, g: &G, toks: &[char], alpha: &[char], l: &mut Local) -
     let impl_clean_c = hoc && nec == 0;
     // the same implications with the zero-sized error type (separate fast paths)
     let pe = build::<&str, chumsky::error::EmptyErr>(g, false);
-    let rawe = std::panic::catch_unwind(std::panic::AssertUnwindSafe(|| {
+    let rawe = quietly(|| {
         let a = result_contract(pe.parse(s));
         let b = result_contract(Parser::check(&pe, s));
         (a, b)
-    }));
+    });
     l.evals += 2;
     match rawe {
         Err(_) => l.bump("emptyerr_panics_left_to_C20"),
